@@ -529,7 +529,7 @@ public:
   {
     switch (f)
     {
-    case cpp_format:     return "std::string(%%1%%).length()";
+    case cpp_format:     return "double(std::string(%%1%%).length())";
     case mql_format:     return            "StringLen(%%1%%)";
     case python_format:  return                  "len(%%1%%)";
     default:             return               "strlen(%%1%%)";
